@@ -188,6 +188,14 @@ func Main(id string, fams []Family) {
 			mergeStats(merged, results[i].stats)
 		}
 	}
+	if lost, ok := merged["schedule_control_reduced"]; ok {
+		// reduced schedule control is acceptable only because the stress families stand in for the forced schedules
+		fam, _ := merged["scenarios_by_family"].(map[string]any)
+		if n, _ := fam["stress"].(float64); n == 0 && exit == 0 {
+			fmt.Fprintf(os.Stderr, "harness error: tie-degraded: schedule control reduced (%v) and no stress family ran in its place\n", lost)
+			exit = 3
+		}
+	}
 	cases.Close()
 	merged["by_family_process"] = perFamily
 	sb, _ := json.MarshalIndent(merged, "", " ")
@@ -297,7 +305,15 @@ func mergeStats(a, b map[string]any) {
 		case []any:
 			old, _ := a[k].([]any)
 			for _, e := range x {
-				if len(old) < 8 {
+				dup := false
+				if es, ok := e.(string); ok {
+					for _, o := range old {
+						if os, ok := o.(string); ok && os == es {
+							dup = true
+						}
+					}
+				}
+				if !dup && len(old) < 16 {
 					old = append(old, e)
 				}
 			}
